@@ -7,6 +7,10 @@ import threading
 import time
 
 KANI_ENV = dict(os.environ, CARGO_NET_OFFLINE="true", CARGO_TERM_COLOR="never")
+# the build must land in <overlay>/ws/target (the alias scan reads the goto binaries there, and an inherited target
+# directory would make the crate hash - hence the code-generation order - depend on the caller's environment)
+for _k in ("CARGO_TARGET_DIR", "CARGO_BUILD_TARGET_DIR", "RUSTFLAGS", "CARGO_ENCODED_RUSTFLAGS", "RUSTC_WRAPPER"):
+    KANI_ENV.pop(_k, None)
 
 HARNESS_RE = re.compile(
     r"((?:^[ \t]*//[^\n]*\n)*)"                       # leading tag comments
